@@ -385,5 +385,8 @@ fn finish(m: &Merged, tier: Tier) -> Finish {
         "E3 (refparse.rs) is the table of C07 plus the pinned choices listed in DESIGN.md (if only at the loosest level / inside brackets, one trailing comma, identifier-only keys and names); on `contains/in` with a unary operand the table is ambiguous and the oracle accepts rejection or the plain-table tree".into(),
         "string forms the statements leave open (unterminated \\u{, sign inside \\u{}) are skipped".into(),
     ];
+    if tier == Tier::Thorough {
+        crate::fuzzleg::attach(&mut f, "C07", 150);
+    }
     f
 }
